@@ -41,7 +41,18 @@ func Copy(n Node, na NodeAssembler) error {
 		if un, ok := n.(UintNode); ok {
 			// values above MaxInt64 have no AssignInt form; hand over the (immutable) node itself
 			if uv, err := un.AsUint(); err == nil && uv > math.MaxInt64 {
-				return na.AssignNode(n)
+				if h, ok := n.(uintHandover); ok {
+					if *h.inAssignNode {
+						// The assembler's AssignNode came straight back here (Copy is the documented
+						// fallback of AssignNode): it has no way to take this value.
+						return fmt.Errorf("cannot copy integer %d: it exceeds the int64 range and the assembler does not accept a UintNode", uv)
+					}
+					un = h.UintNode
+				}
+				inAssignNode := true
+				err := na.AssignNode(uintHandover{un, &inAssignNode})
+				inAssignNode = false
+				return err
 			}
 		}
 		v, err := n.AsInt()
@@ -117,4 +128,12 @@ func Copy(n Node, na NodeAssembler) error {
 	default:
 		return fmt.Errorf("node has invalid kind %v", n.Kind())
 	}
+}
+
+// uintHandover marks a UintNode while Copy is handing it to an assembler's AssignNode,
+// so that an AssignNode which falls back to Copy ends in an error instead of recursing forever.
+// (An assembler that simply keeps the node keeps this thin wrapper; it is a UintNode like any other.)
+type uintHandover struct {
+	UintNode
+	inAssignNode *bool
 }
